@@ -251,13 +251,16 @@ def sparseOk (ub : Nat) : List (Nat × α) → Bool
   | [] => true
   | (i, _) :: l => decide (i < ub) && sparseOk ub l
 
-def sufOk (h : Hdr) (s : Suffix) : Bool :=
-  match s.vals with
-  | .ints l => decide (s.kind < 4) && decide (l.length ≤ sufItems h s.kind) && sparseOk (sufItems h s.kind) l
-  | .dbls l => decide (4 ≤ s.kind ∧ s.kind < 8) && decide (l.length ≤ sufItems h s.kind) && sparseOk (sufItems h s.kind) l
-def sufsOk (h : Hdr) : List Suffix → Bool
+def intsOk (o : Opts) : List (Nat × Int) → Bool
   | [] => true
-  | s :: r => sufOk h s && sufsOk h r
+  | (_, v) :: l => (o.binary || v != -2147483648) && intsOk o l
+def sufOk (h : Hdr) (o : Opts) (s : Suffix) : Bool :=
+  match s.vals with
+  | .ints l => decide (s.kind < 4) && decide (l.length ≤ sufItems h s.kind) && sparseOk (sufItems h s.kind) l && intsOk o l
+  | .dbls l => decide (4 ≤ s.kind ∧ s.kind < 8) && decide (l.length ≤ sufItems h s.kind) && sparseOk (sufItems h s.kind) l
+def sufsOk (h : Hdr) (o : Opts) : List Suffix → Bool
+  | [] => true
+  | s :: r => sufOk h o s && sufsOk h o r
 
 def cbOk (nv : Nat) : List ConBnd → Bool
   | [] => true
@@ -302,7 +305,7 @@ def wellFormed (m : Model) (o : Opts) : Bool :=
   let h := m.hdr
   hdrOk h && decide (o.binary = true → h.arith = 1) && decide (o.colSizes ≤ 2) &&
   decide (m.funcs.length = h.nf) && funcsOk m.funcs &&
-  sufsOk h m.sufs && sufsOk h (plsosSuffixes m) &&
+  sufsOk h o m.sufs && sufsOk h o (plsosSuffixes m) &&
   decide (m.vb.length = h.nv) && decide (m.cb.length = h.nac) && cbOk h.nv m.cb &&
   initOk h.nv m.x0 && initOk h.nac m.d0 &&
   defVarsOk h m.dv0 &&
